@@ -281,3 +281,74 @@ Theorem C03_cell_cover_q (n : nat) (q o : Z) (t : (Z * Z) * bool) (X Y : Q) :
        Forall (fun c => - (1 # 9007199254740992) <= c) (crosses QInst l P)).
 Proof. exact (cell_cover_q n q o t X Y). Qed.
 Print Assumptions C03_cell_cover_q.
+
+(* ---- The same at the TRUE SCALE of a cell (outline computed with hr = n, i.e. divided by 2^n; Geo/TilingScaled.v, exact
+   rationals, axiom-free): scaling is the linear map with determinant 1/4^n, so every threshold is divided by 4^n.  These
+   are statements about the face coordinates that get_pentagon actually returns for a cell of resolution n + 1. ---- *)
+From A5 Require Import Geo.TilingScaled.
+
+Theorem C03_gpv_scaled (hr q : Z) (a : anchor) (l0 : list (Q * Q)) : (0 <= q <= 4)%Z -> (0 <= hr)%Z ->
+  get_pentagon_vertices QInst 0 q a = Some l0 ->
+  exists lh, get_pentagon_vertices QInst hr q a = Some lh /\
+    peq lh (map (fun p => (fst p / inject_Z (2 ^ hr), snd p / inject_Z (2 ^ hr))) l0).
+Proof. exact (gpv_scaled hr q a l0). Qed.
+Print Assumptions C03_gpv_scaled.
+
+Theorem C03_cells_eps_disjoint_scaled_q (n : nat) (q o s1 s2 : Z) (l1 l2 : list (Q * Q)) :
+  (0 <= q <= 4)%Z -> (1 <= n <= 29)%nat -> (0 <= o < 6)%Z ->
+  (0 <= s1 < 4 ^ Z.of_nat n)%Z -> (0 <= s2 < 4 ^ Z.of_nat n)%Z ->
+  get_pentagon_vertices QInst (Z.of_nat n) q (s_to_anchor s1 n o) = Some l1 ->
+  get_pentagon_vertices QInst (Z.of_nat n) q (s_to_anchor s2 n o) = Some l2 ->
+  s1 <> s2 ->
+  forall w : Q * Q,
+    ~ (Forall (fun c => (1 # 10000000000000000) / inject_Z (4 ^ Z.of_nat n) < c) (crosses QInst l1 w) /\
+       Forall (fun c => (1 # 10000000000000000) / inject_Z (4 ^ Z.of_nat n) < c) (crosses QInst l2 w)).
+Proof. exact (cells_eps_disjoint_scaled_q n q o s1 s2 l1 l2). Qed.
+Print Assumptions C03_cells_eps_disjoint_scaled_q.
+
+Theorem C03_cells_equal_or_eps_disjoint_scaled_q (n : nat) (q o1 o2 s1 s2 : Z) (l1 l2 : list (Q * Q)) :
+  (0 <= q <= 4)%Z -> (1 <= n <= 29)%nat -> (0 <= o1 < 6)%Z -> (0 <= o2 < 6)%Z ->
+  (0 <= s1 < 4 ^ Z.of_nat n)%Z -> (0 <= s2 < 4 ^ Z.of_nat n)%Z ->
+  get_pentagon_vertices QInst (Z.of_nat n) q (s_to_anchor s1 n o1) = Some l1 ->
+  get_pentagon_vertices QInst (Z.of_nat n) q (s_to_anchor s2 n o2) = Some l2 ->
+  Forall2 (fun p r : Q * Q => fst p == fst r /\ snd p == snd r) l1 l2 \/
+  forall w : Q * Q,
+    ~ (Forall (fun c => (1 # 10000000000000000) / inject_Z (4 ^ Z.of_nat n) < c) (crosses QInst l1 w) /\
+       Forall (fun c => (1 # 10000000000000000) / inject_Z (4 ^ Z.of_nat n) < c) (crosses QInst l2 w)).
+Proof. exact (cells_equal_or_eps_disjoint_scaled_q n q o1 o2 s1 s2 l1 l2). Qed.
+Print Assumptions C03_cells_equal_or_eps_disjoint_scaled_q.
+
+Theorem C03_positions_injective_scaled_q (n : nat) (q o s1 s2 : Z) (l1 l2 : list (Q * Q)) :
+  (0 <= q <= 4)%Z -> (1 <= n <= 29)%nat -> (0 <= o < 6)%Z ->
+  (0 <= s1 < 4 ^ Z.of_nat n)%Z -> (0 <= s2 < 4 ^ Z.of_nat n)%Z ->
+  get_pentagon_vertices QInst (Z.of_nat n) q (s_to_anchor s1 n o) = Some l1 ->
+  get_pentagon_vertices QInst (Z.of_nat n) q (s_to_anchor s2 n o) = Some l2 ->
+  s1 <> s2 ->
+  ~ (fst (get_center QInst l1) == fst (get_center QInst l2) /\
+     snd (get_center QInst l1) == snd (get_center QInst l2)).
+Proof. exact (positions_injective_scaled_q n q o s1 s2 l1 l2). Qed.
+Print Assumptions C03_positions_injective_scaled_q.
+
+Theorem C03_plane_covered_scaled_q (n : nat) (q : Z) (P : Q * Q) : (0 <= q <= 4)%Z ->
+  exists t, Forall (fun c => - (1 # 9007199254740992) / inject_Z (4 ^ Z.of_nat n) <= c)
+                   (crosses QInst
+                      (map (fun p => (fst p / inject_Z (2 ^ Z.of_nat n), snd p / inject_Z (2 ^ Z.of_nat n)))
+                           (map (lin (rotation QInst q)) (canon_tile t))) P).
+Proof. exact (plane_covered_scaled_q n q P). Qed.
+Print Assumptions C03_plane_covered_scaled_q.
+
+Theorem C03_cell_cover_scaled_q (n : nat) (q o : Z) (t : (Z * Z) * bool) (X Y : Q) :
+  (0 <= q <= 4)%Z -> (1 <= n <= 29)%nat -> (0 <= o < 6)%Z -> in_quintant n t ->
+  0 <= X -> 0 <= Y -> (if snd t then X + Y <= 1 else X <= 1 /\ Y <= 1 /\ 1 <= X + Y) ->
+  let sc := fun p : Q * Q => (fst p / inject_Z (2 ^ Z.of_nat n), snd p / inject_Z (2 ^ Z.of_nat n)) in
+  let P := sc (lin (rotation QInst q) (Bq (inject_Z (fst (fst t)) + X) (inject_Z (snd (fst t)) + Y))) in
+  exists t', In t' (nbrs t) /\
+    Forall (fun c => - (1 # 9007199254740992) / inject_Z (4 ^ Z.of_nat n) <= c)
+           (crosses QInst (map sc (map (lin (rotation QInst q)) (canon_tile t'))) P) /\
+    (in_quintant n t' ->
+     exists s l, (0 <= s < 4 ^ Z.of_nat n)%Z /\
+       get_pentagon_vertices QInst (Z.of_nat n) q (s_to_anchor s n o) = Some l /\
+       tau_of (s_to_anchor s n o) = t' /\
+       Forall (fun c => - (1 # 9007199254740992) / inject_Z (4 ^ Z.of_nat n) <= c) (crosses QInst l P)).
+Proof. exact (cell_cover_scaled_q n q o t X Y). Qed.
+Print Assumptions C03_cell_cover_scaled_q.
